@@ -75,6 +75,15 @@ def _split_types(pos, depth, t0, t1):
         return rt.SKIP
     depth, t0, t1 = rt.pick(depth, 1, 2), rt.pick(t0, 0, len(types) - 1), rt.pick(t1, 0, len(types) - 1)
     ta = [structure.NodeTypeWithAttrs(types[t0]), structure.NodeTypeWithAttrs(types[t1])][:depth]
+    # the type given for a node after the split must be able to continue that node's content
+    # (typesAfter is meant for e.g. paragraph -> heading; a list continued as a code block is outside the claim)
+    r = C.doc.resolve(pos)
+    if r.depth < depth:
+        return rt.fin(structure.can_split(C.doc, pos, depth, ta) is False, "can_split approves a split deeper than the position")
+    for j in range(depth):
+        orig = r.node(r.depth - depth + 1 + j).type.name
+        if not C.V.compatible(ta[j].type.name, orig):
+            return rt.SKIP
     if not structure.can_split(C.doc, pos, depth, ta):
         return rt.fin(True)
     tr = Transform(C.doc)
